@@ -9,7 +9,7 @@ def run(rep, tier, seed, args):
                 'pair: none / edge shifted by k / weak edge / both) with every shift amount k an unbounded symbolic int >= 0 (k = 0 is the plain '
                 'connection); non-trivial = at least one connection; paths are distinct (different structure or disjoint conditions on the shifts)')
     rep.bounds = {'simulators': '2 (all structures incl. self-connections; quick: without pairs that carry both a shifted and a weak edge), 3 (no self-pairs; quick: a rotating sixteenth of the structures selected by VERIF_SEED, '
-                                'thorough: a rotating half), the weak-cycle family for every three-simulator tree always complete, 4-simulator two-route family; thorough also 4-rings with <= 2 chords', 'group_depth': '<= 3', 'shifts': 'unbounded symbolic',
+                                'thorough: a rotating half), the weak-cycle family for every three-simulator tree always complete, 4-simulator two-route family; thorough also 4-rings with <= 1 chord', 'group_depth': '<= 3', 'shifts': 'unbounded symbolic',
                   'outside': 'more simulators; async_requests edges; data-carrying runs (until=1, simulators produce nothing)'}
     rep.assumptions = [sysrun.STUBS[0], sysrun.STUBS[2], sysrun.STUBS[4], 'cache=False (with the cache on delays become dict keys and are concretised)',
                        'oracle: enumerate the simple cycles of the chosen multigraph; a cycle is unresolved iff every hop has a connection that is '
